@@ -8,7 +8,9 @@
 (* commutative operators pick the largest owned operand) must imply it.          *)
 EXTENDS Naturals, Integers, Sequences, FiniteSets, TLC
 
-CONSTANTS NI, NOps
+CONSTANTS NI, NOps,
+          CountMax,   \* usage counts are u8 in the code (NodeRefCount): 255; small values let TLC reach saturation
+          StickyDec   \* TRUE (the code): a count that reached CountMax never decrements again
 
 VARIABLES g,        \* graph: [ops |-> seq of [ins: seq of value ids, inplace: BOOLEAN, comm: BOOLEAN], outs: set of requested values, owned: set of owned graph inputs, big: set of values with the larger size]
           pc,       \* next plan step
@@ -38,8 +40,12 @@ Graphs == {[ops |-> s, outs |-> {NV} \cup e, owned |-> w, big |-> b] :
              s \in OpSeqs(NOps), e \in {{}} \cup {{v} : v \in Vals \ {NV}},
              w \in SUBSET (1..NI), b \in SUBSET (1..NI)}
 
-InitCount(gr) == [v \in Vals |-> (IF v \in gr.outs THEN 1 ELSE 0)
-                                 + Cardinality({<<i, k>> \in (1..NOps) \X (1..2) : k \in DOMAIN gr.ops[i].ins /\ gr.ops[i].ins[k] = v})]
+\* NodeRefCount::inc saturates at CountMax; NodeRefCount::dec leaves a saturated count alone ("sticky"):
+\* a value with more uses than the counter can represent is never taken in place or released early
+Sat(n) == IF n > CountMax THEN CountMax ELSE n
+DecBy(c, n) == IF StickyDec /\ c = CountMax THEN c ELSE IF c >= n THEN c - n ELSE 0
+InitCount(gr) == [v \in Vals |-> Sat((IF v \in gr.outs THEN 1 ELSE 0)
+                                 + Cardinality({<<i, k>> \in (1..NOps) \X (1..2) : k \in DOMAIN gr.ops[i].ins /\ gr.ops[i].ins[k] = v}))]
 
 Init == /\ g \in Graphs /\ pc = 1
         /\ store = [v \in Vals |-> IF v <= NI THEN <<"in", v>> ELSE "absent"]
@@ -70,7 +76,7 @@ Release(cnt, wh, o) ==   \* after the step: values whose count dropped to 0 go b
 Step ==
   /\ pc <= NOps
   /\ LET o == g.ops[pc] out == NI + pc p == ImplTakes(o)
-         cnt2 == [v \in Vals |-> count[v] - Occ(o.ins, v)]
+         cnt2 == [v \in Vals |-> DecBy(count[v], Occ(o.ins, v))]
      IN /\ count' = cnt2
         /\ IF p = 0
            THEN /\ store' = [store EXCEPT ![out] = <<"op", pc, [k \in DOMAIN o.ins |-> store[o.ins[k]]]>>]
